@@ -21,6 +21,7 @@ def parseFault (m : String) : Option Fault :=
   | ["midbody", a, b] => do pure (.midBody (← a.toNat?) (← b.toNat?))
   | ["chunkpartial"] => some .chunkPartial
   | ["upgrade"] => some .upgrade
+  | ["early", st, n] => do pure (.early (← st.toNat?) (← n.toNat?))
   | _ => none
 
 def lowerU (b : Bytes) : Bytes := b.map fun c => if c = 45 then 95 else Rewrite.lower c
@@ -56,14 +57,15 @@ def stepLine (s : St) (line : String) : St × String :=
           let v : Bytes := if k = asciiB "Accept" then asciiB "text/x" else if k = asciiB "X-Custom" then hdr else []
           s!"req_{showB (lowerU k)}={encB v}"
         let respX := if !o.claimed then [] else s.logResp.filter (· ≠ asciiB "Content-Type") |>.map fun k =>
-          let v : Bytes := if k = asciiB "X-Resp" && served && (match f with | .ok _ _ => true | _ => false) then asciiB "v1,v2" else []
+          let v : Bytes := if k = asciiB "X-Resp" && served && (match f with | .ok _ _ => true | .early _ _ => true | _ => false) then asciiB "v1,v2" else []
           s!"resp_{showB (lowerU k)}={encB v}"
         let extra := sortStrs (reqX ++ respX)
         let logStr := s!"n=1 status={o.logStatus} bytes={bytes} method={method} host={showB host} path={encB path} query={encB query} " ++
           s!"rid=? service={if routed then "flt" else ""} target={if o.claimed then "flt-a:80" else ""}" ++
           (if extra.isEmpty then "" else " " ++ " ".intercalate extra)
         (s, s!"fault status={status} complete={complete} page={page} bodylen={bodylen} at={o.at_} log=[{logStr}] residue=0" ++
-            (if routed && aborted then " client-aborted" else ""))
+            (if routed && aborted then " client-aborted" else "") ++
+            (if routed && !aborted && (match f with | .early _ _ => true | _ => false) then " early=1" else ""))
       | _, _, _, _, _, _, _ => (s, "bad-op")
     | _ => (s, "bad-op")
 
